@@ -77,6 +77,14 @@ def natToDec (n : Nat) : Bytes := ((digitsRev 10 (n + 1) n).map digitChar).rever
 /-- `fmt.Sprintf("%x", n)`. -/
 def natToHex (n : Nat) : Bytes := ((digitsRev 16 (n + 1) n).map digitChar).reverse
 
+/-- stable insertion sort (structural, so the kernel can evaluate it); on lists with distinct
+keys it returns what Go's `slices.Sort` / `sort.Sort` return. -/
+def insertBy {α} (le : α → α → Bool) (x : α) : List α → List α
+  | [] => [x]
+  | y :: ys => if le x y then x :: y :: ys else y :: insertBy le x ys
+
+def isortBy {α} (le : α → α → Bool) (l : List α) : List α := l.foldr (insertBy le) []
+
 def join (sep : Bytes) : List Bytes → Bytes
   | [] => []
   | [x] => x
